@@ -11,6 +11,7 @@ import (
 	"go/ast"
 	"go/token"
 	"go/types"
+	"strings"
 
 	"golang.org/x/tools/go/packages"
 )
@@ -306,4 +307,123 @@ func checkLineLimitAgreement(r *Run, p *packages.Package) {
 	if !found {
 		r.Undecide("C18-R1: no record writer (a method calling json.Encoder.Encode) found in package retriever")
 	}
+}
+
+// checkEndpointArgumentRoles (R10): relationships are described by a start and an end ID of the same type, so the
+// compiler cannot tell a call that passes them in the wrong order. Wherever a function of the package has parameters
+// named for the two roles, the arguments handed to them must not be named for the opposite roles: a swapped pair
+// reverses every relationship that passes through the call (the resumed dump's degree and endpoint histograms).
+func checkEndpointArgumentRoles(r *Run, p *packages.Package) {
+	const rule = "C18-R10-endpoint-argument-roles"
+	info := p.TypesInfo
+	roleOf := func(name string) string {
+		l := strings.ToLower(name)
+		hasStart := strings.Contains(l, "start") || strings.Contains(l, "source")
+		hasEnd := strings.Contains(l, "end") || strings.Contains(l, "target") || strings.Contains(l, "destination")
+		switch {
+		case hasStart && !hasEnd:
+			return "start"
+		case hasEnd && !hasStart:
+			return "end"
+		}
+		return ""
+	}
+	argRole := func(e ast.Expr) string {
+		role := ""
+		mixed := false
+		ast.Inspect(e, func(x ast.Node) bool {
+			var name string
+			switch t := x.(type) {
+			case *ast.Ident:
+				name = t.Name
+			case *ast.SelectorExpr:
+				name = t.Sel.Name
+			}
+			if rl := roleOf(name); rl != "" {
+				if role != "" && role != rl {
+					mixed = true
+				}
+				role = rl
+			}
+			return true
+		})
+		if mixed {
+			return ""
+		}
+		return role
+	}
+	n := 0
+	for _, f := range p.Syntax {
+		for _, d := range f.Decls {
+			fd, ok := d.(*ast.FuncDecl)
+			if !ok || fd.Body == nil {
+				continue
+			}
+			ast.Inspect(fd.Body, func(x ast.Node) bool {
+				call, ok := x.(*ast.CallExpr)
+				if !ok {
+					return true
+				}
+				callee := calleeOf(info, call)
+				if callee == nil {
+					return true
+				}
+				sig := callee.Type().(*types.Signature)
+				if sig.Params().Len() != len(call.Args) {
+					return true
+				}
+				type pa struct{ prole, arole string }
+				var pairs []pa
+				for i := 0; i < sig.Params().Len(); i++ {
+					pr := roleOf(sig.Params().At(i).Name())
+					if pr == "" {
+						continue
+					}
+					pairs = append(pairs, pa{pr, argRole(call.Args[i])})
+				}
+				if len(pairs) < 2 {
+					return true
+				}
+				n++
+				crossed := 0
+				for _, q := range pairs {
+					if q.arole != "" && q.arole != q.prole {
+						crossed++
+					}
+				}
+				construct := funcDeclName(fd) + "→" + callee.Name() + "@" + itoaCallOrdinal(fd, call)
+				if crossed >= 2 {
+					r.Fail(rule, construct, call.Pos(), "%s is called with its start and end arguments exchanged (the argument for each role is named for the other): every relationship that goes through this call is recorded reversed", callee.Name())
+				} else {
+					r.Pass(rule, construct, call.Pos(), "start and end arguments are in the callee's order")
+				}
+				return true
+			})
+		}
+	}
+	if n < 3 {
+		r.Undecide("C18-R10: fewer than three calls with start/end parameters found in package retriever (%d)", n)
+	}
+}
+
+func itoaCallOrdinal(fd *ast.FuncDecl, target *ast.CallExpr) string {
+	idx, out := 0, 0
+	ast.Inspect(fd.Body, func(x ast.Node) bool {
+		if c, ok := x.(*ast.CallExpr); ok {
+			idx++
+			if c == target {
+				out = idx
+			}
+		}
+		return true
+	})
+	s := ""
+	for out > 0 {
+		s = string(rune('0'+out%10)) + s
+		out /= 10
+	}
+	if s == "" {
+		return "0"
+	}
+	return s
 }
